@@ -442,7 +442,7 @@ def run(ctx):
     # ---- R13n: the input is read at the current position only, or in range
     ctx.rule('R13n', 'the encoder reads its input string only at the current position (kept below len(s) by the main loop) '
                      'or at an index for which an in-range fact holds at that place: a look-ahead s[pos+k] at the end of '
-                     'the input raises IndexError, which is neither output nor the ValueError of the fail policy', 4)
+                     'the input raises IndexError, which is neither output nor the ValueError of the fail policy', 2)
     _input_indexing(ctx, repo)
 
     # ---- R13m: an empty replacement is a replacement
@@ -628,6 +628,12 @@ def _table_passthrough(ctx, repo):
     for cs in cases:
         rt = kwarg(cs.sub, 'rule_type') or (cs.sub.args[0] if cs.sub.args else None)
         if rt is None or unparse(rt) != 'RULE_DICT':
+            ctx.refuted('R13k', gm, cs.node, 'rule set [%s] contains a rule of type %s (%s): what it emits is not an entry of the '
+                        'checked tables -- a callable or regular-expression rule can copy characters of the input into the '
+                        'output (a non-ASCII base letter in front of a combining accent), so the output is no longer ASCII / '
+                        'inert by construction, and the fail policy no longer sees those characters'
+                        % (' & '.join(cs.cond_src())[:60], unparse(rt) if rt is not None else '?', short(cs.sub, 70)),
+                        construct='get_builtin_conversion_rules: non-table rule ' + (unparse(rt) if rt is not None else '?'))
             continue
         n += 1
         r = kwarg(cs.sub, 'rule') or (cs.sub.args[1] if len(cs.sub.args) > 1 else None)
@@ -700,5 +706,5 @@ def _input_indexing(ctx, repo):
                 ctx.decide('R13n', ok, em, x, 'look-behind under an in-range test',
                            '%s reads s[%s] without a test that %s >= %d: at the start of the input a negative index reads '
                            'the *end* of the string' % (q, itxt, base, -k), construct=cons)
-    if n < 4:
+    if n < 2:
         raise AnalysisError('R13n: only %d reads of the input string found in the encoder' % n)
